@@ -3,13 +3,21 @@
 spec: SessionTrace (rest state <<0,1,0,0>> of the four stacks; empty evaluation is nil; piecewise =
       together; no growth) and Bytecode (abstract execution of the REAL compiler's listings along all
       control paths: NeedOK, AtReturn, AtEnd, TailExact, Bounded)
-bind: (a) sequences of evaluations over a catalogue of ~85 forms of the full surface language on one
+bind: (a) sequences of evaluations over a catalogue of ~150 forms of the full surface language on one
       long-lived real interpreter, depths read through the verif accessor; every form 200x (growth);
+      derived entries (fam_session.go sessionDerived): every form in operand positions (array element, call
+      argument, function body whose call is an operand, cond arm, let body), every body-carrying form with an
+      empty body, break/continue at every sub-position of a loop statement x enclosing scopes x top level /
+      inside a function, syntax-quote template shapes x unquoted expressions (also ones that do not compile),
+      source/include x file lists; evaluations entered through the Go API (Apply, SourceStream,
+      SourceExpressions, zygo.EvalFunction) as catalogue entries;
       (b) the listing of every function/chunk the real compiler produced for the catalogue, for generated
       core-language programs and for the C09 tail shapes is the input of Bytecode.tla;
-      (d) EntryPoints.tla: the host protocol of LoadString / Run / EvalString / EvalExpressions / Apply / Clear
-      (pending chunks, program counter, what runs when), model-checked (the pinned Apply variant is refuted) and
-      bound by every history of <= 3 host calls over a 17-call alphabet plus seeded long ones (EntryTrace.tla);
+      (d) EntryPoints.tla: the host protocol of LoadString / Run / EvalString / EvalExpressions / Apply /
+      SourceStream / SourceFile / SourceExpressions / zygo.EvalFunction / Clear (pending chunks, program counter,
+      what runs when), model-checked (the pinned Apply and EvalFunction variants are refuted) and bound by every
+      history of <= 3 host calls over a 22-call alphabet (of the 3-call histories using the source/EvalFunction
+      letters the quick tier takes a seeded half) plus seeded long ones (EntryTrace.tla);
       (c) the stack effect of every VM instruction executed (step tracer) against VMEffects.tla, the table
       Bytecode.tla executes with (EffectTrace.tla).
 """
@@ -74,6 +82,7 @@ def entrypoints(out, zv):
     flow.mc_runs(out, [
         {"module": "EntryPoints.tla", "cfg": "EntryPoints.cfg", "expect": "ok", "timeout": 900},
         {"module": "EntryPoints.tla", "cfg": "EntryPointsPinned.cfg", "expect": "violation", "timeout": 300},
+        {"module": "EntryPoints.tla", "cfg": "EntryPointsPinnedEvalFn.cfg", "expect": "violation", "timeout": 300},
     ])
     tr = os.path.join(vlib.scratch(), "entry.ndjson")
     vlib.run_zv(zv, "entry", [], tr)
@@ -98,13 +107,16 @@ def run():
         "traces_validated_against_impl": len(cases) + nlist,
         "evaluation_sequences": len(cases), "evaluations": evals,
         "samples": [[(e["text"], e["out"], e["after"], e["empty"]) for e in c["evs"]] for c in list(cases.values())[-2:]],
-        "rule": "every catalogue form alone 200x (thorough 1000x); a seeded third of all ordered pairs (thorough: all); "
-                "seeded sequences of 3-4 forms; each followed by an empty evaluation; twin interpreter evaluating the pieces together; "
+        "rule": "every catalogue form alone 200x (thorough 1000x); every derived entry (operand positions, empty bodies, jump positions, "
+                "templates, file lists) alone 3x; a seeded third of all ordered pairs (thorough: all); "
+                "seeded sequences of 3-4 catalogue and derived forms; each followed by an empty evaluation; twin interpreter evaluating the pieces together; "
                 "Bytecode: all control paths of every listing compiled for the catalogue, generated programs and tail shapes",
     }
     return flow.finish(out, "model_checking", cov, [
         "depths are read through the verif accessor VerifDepths; growth is judged on the four stacks, not on the instruction memory of __main",
         "forms that fail are not judged here (C05); struct names are made unique per case because the registry is process-global",
+        "piecewise = together is judged over forms whose meaning at compile time does not depend on what an earlier form of the same text does when it runs "
+        "(names are unique per entry): a text is compiled as a whole before any of it runs, which is not residue",
         "Bytecode.tla's effect table per instruction kind (VMEffects.tla) is written from vm.go and bound to the VM by EffectTrace: "
         "every (kind, operand count, depth change) signature the tracer observed while the catalogue, generated programs and the script corpus ran must be the table's; "
         "instruction kinds never executed in those runs are assumed; an unknown kind is not judged",
